@@ -1,0 +1,33 @@
+//go:build verif
+
+package miner
+
+// Machine-checked contracts for /verif/govc (contract-based deductive verification).
+// This file contains comments only; it is compiled only with -tags verif and adds no code.
+
+// ---------------------------------------------------------------- round random seed (C33)
+// Read-only helpers around the threshold check: trusted frames.
+//@ iface 0chain.net/core/config.ChainConfig.IsDkgEnabled
+//@   params self
+//@   pure
+//@ func getVRFShareInfo
+//@   trusted
+//@   modifies nothing
+//@ func (*Chain).GetDKG
+//@   trusted
+//@   modifies nothing
+//@ assume func 0chain.net/chaincore/threshold/bls.(*DKG).CalBlsGpSign
+//@   params dkg recSig recIDs
+//@   pure
+//@ assume func github.com/herumi/bls-go-binary/bls.(*Sign).GetHexString
+//@   params sig
+//@   pure
+
+// The round's random beacon output is computed only from at least threshold-many collected VRF
+// shares and - when DKG is on - only from a group signature that was recovered without error.
+//@ func (*Chain).ThresholdNumBLSSigReceived
+//@   prop C33
+//@   requires mc != nil && mr != nil && mr.Round != nil && held(mr.Round.mutex) == 0 && rheld(mr.Round.mutex) == 0
+//@   opaque computeRBO
+//@   at-call computeRBO assert[enough-shares] len(shares) >= blsThreshold
+//@   at-call computeRBO assert[group-signature-recovered] err == nil
